@@ -302,6 +302,16 @@ func (c *checker) takeover(routable []string, deadline time.Time) {
 		if len(bo.Viol) > 0 {
 			c.r.Violate("takeover:"+shortType(url)+":-", c.describe(proto, bo), proto)
 		}
+		// the same message one day later: a message that names nobody must leave the
+		// records of others alone whenever it is sent
+		later := proto
+		later.Later = true
+		lo := c.deliver(later)
+		c.countOutcome(later, lo)
+		cases++
+		if len(lo.Viol) > 0 {
+			c.r.Violate("takeover:"+shortType(url)+":-", c.describe(later, lo), later)
+		}
 		for _, f := range c.takeFields(url, c.takeBase(proto)) {
 			fieldReport[shortType(url)] = append(fieldReport[shortType(url)], fmt.Sprintf("%s(%d)", f.Path, len(f.Values)))
 			for _, val := range f.Values {
